@@ -17,10 +17,22 @@ type Mode int
 const (
 	ModeBV  Mode = iota // Go ints are bit-vectors of their width
 	ModeInt             // Go ints are mathematical ints + explicit wrap
+	// ModeReal: ModeInt, and floating-point values are mathematical reals
+	// (every float operation is exact; no NaN, no infinities, no rounding).
+	// This is an ASSUMPTION ("machine arithmetic treated as mathematical") and
+	// is reported as such in the evidence of every function that uses it.
+	ModeReal
 )
 
+func (m Mode) isInt() bool  { return m == ModeInt || m == ModeReal }
+func (m Mode) isBV() bool   { return m == ModeBV }
+func (m Mode) isReal() bool { return m == ModeReal }
+
 func (m Mode) String() string {
-	if m == ModeInt {
+	if m == ModeReal {
+		return "real"
+	}
+	if m.isInt() {
 		return "int"
 	}
 	return "bv"
@@ -168,7 +180,7 @@ const sortF32 = "(_ FloatingPoint 8 24)"
 
 // intSort: the sort of a Go integer of the given width in the mode.
 func (m Mode) intSort(w int) string {
-	if m == ModeInt {
+	if m.isInt() {
 		return "Int"
 	}
 	return fmt.Sprintf("(_ BitVec %d)", w)
@@ -189,6 +201,9 @@ func (m Mode) scalarSort(t types.Type) string {
 			return m.intSort(w)
 		}
 		if w, ok := isFloat(t); ok {
+			if m.isReal() {
+				return "Real"
+			}
 			if w == 32 {
 				return sortF32
 			}
@@ -222,7 +237,7 @@ func (m Mode) scalarSort(t types.Type) string {
 
 // intLit renders an integer literal of the given width.
 func (m Mode) intLit(v *big.Int, w int) string {
-	if m == ModeInt {
+	if m.isInt() {
 		if v.Sign() < 0 {
 			return "(- " + new(big.Int).Neg(v).String() + ")"
 		}
@@ -238,6 +253,26 @@ func (m Mode) intLit64(v int64, w int) string { return m.intLit(big.NewInt(v), w
 func f64Lit(f float64) string {
 	bits := math.Float64bits(f)
 	return fmt.Sprintf("(fp #b%01b #b%011b #b%052b)", bits>>63, (bits>>52)&0x7ff, bits&((1<<52)-1))
+}
+
+// realLit renders a finite float64 exactly as an SMT Real term.
+func realLit(f float64) string {
+	r := new(big.Rat)
+	if r.SetFloat64(f) == nil {
+		return "0.0"
+	}
+	neg := r.Sign() < 0
+	if neg {
+		r.Neg(r)
+	}
+	s := "(/ " + r.Num().String() + ".0 " + r.Denom().String() + ".0)"
+	if r.IsInt() {
+		s = r.Num().String() + ".0"
+	}
+	if neg {
+		return "(- " + s + ")"
+	}
+	return s
 }
 
 func f32Lit(f float32) string {
